@@ -12,6 +12,7 @@ import ast
 from ..astx import walk_no_nested, dotted, call_name, self_attr, func_params, parent, ancestors, dominating_conditions, \
     flatten_conditions, kwarg
 from ..core import norm, Inconclusive
+from .. import pat
 
 OLD, NEW = "old", "new"
 
@@ -108,87 +109,114 @@ def e10(ctx):
     # string edits
     sq = m.need_class("StringFormatter")
     pe = m.method(sq, "print_StringEdit")
+    F = pe.file
+    W = "StringFormatter.print_StringEdit"
+
+    def loop_source(c):
+        loop = next((a for a in ancestors(c) if isinstance(a, ast.For)), None)
+        if loop is None:
+            return None
+        it = loop.iter.args[0] if isinstance(loop.iter, ast.Call) and call_name(loop.iter) == "enumerate" and loop.iter.args else loop.iter
+        return dotted(it)
+    seqs = {OLD: set(), NEW: set()}
+    marked = []
     for c in walk_no_nested(pe.node):
         if isinstance(c, ast.Call) and self_attr(c.func) == "write_char":
-            rem = kwarg(c, "removed")
-            ins = kwarg(c, "inserted")
+            rem, ins = kwarg(c, "removed"), kwarg(c, "inserted")
+            side = OLD if (isinstance(rem, ast.Constant) and rem.value is True) else \
+                NEW if (isinstance(ins, ast.Constant) and ins.value is True) else None
             pol = enclosing_polarity(c)
-            side = OLD if (isinstance(rem, ast.Constant) and rem.value is True) else NEW if (isinstance(ins, ast.Constant) and ins.value is True) else None
-            # the character variable must come from the matching pending sequence
-            loop = next((a for a in ancestors(c) if isinstance(a, ast.For)), None)
-            src = dotted(loop.iter) if loop is not None else None
-            if isinstance(loop.iter if loop else None, ast.Call) and call_name(loop.iter) == "enumerate":
-                src = dotted(loop.iter.args[0])
             if side is None:
                 if pol:
-                    ctx.violation("E10", pe.file, "StringFormatter.print_StringEdit", c, "unchanged char inside mark",
-                                  "an unchanged character is written inside a change mark")
+                    ctx.violation("E10", F, W, c, "unchanged char inside mark", "an unchanged character is written inside a change mark")
                 else:
-                    ctx.proved("E10", pe.file, "StringFormatter.print_StringEdit", c, "unchanged char unmarked", "matched characters are written outside marks", nontrivial=False)
+                    ctx.proved("E10", F, W, c, "unchanged char unmarked", "matched characters are written outside marks", nontrivial=False)
                 continue
-            n_ctx += 1
-            want_src = "remove_seq" if side == OLD else "add_seq"
-            if pol == {side} and src == want_src:
-                ctx.proved("E10", pe.file, "StringFormatter.print_StringEdit", c, f"{want_src} in {sorted(pol)} @{c.lineno - pe.node.lineno}",
-                           f"characters of {want_src} are written with {'removed' if side == OLD else 'inserted'}=True inside the matching mark")
+            seqs[side].add(loop_source(c))
+            marked.append((c, side, pol, loop_source(c)))
+    rem_seq = next(iter(seqs[OLD])) if len(seqs[OLD]) == 1 else None
+    add_seq = next(iter(seqs[NEW])) if len(seqs[NEW]) == 1 else None
+    if not rem_seq or not add_seq or rem_seq == add_seq:
+        ctx.violation("E10", F, W, pe.node, "pending runs",
+                      f"removed characters are written from {sorted(x or '?' for x in seqs[OLD])} and inserted characters from "
+                      f"{sorted(x or '?' for x in seqs[NEW])}: each side must have exactly one pending run, distinct from the other")
+    for k, (c, side, pol, src) in enumerate(sorted(marked, key=lambda x: x[0].lineno)):
+        n_ctx += 1
+        which = "removed" if side == OLD else "inserted"
+        if pol == {side}:
+            ctx.proved("E10", F, W, c, f"{which} run #{k} in {sorted(pol)}",
+                       f"characters of the pending {which} run are written with {which}=True inside the matching mark")
+        else:
+            ctx.violation("E10", F, W, c, f"{which} run #{k} in {sorted(pol)}",
+                          f"characters from `{src}` are written with {which}=True inside {sorted(pol) or 'no'} mark; expected a "
+                          f"{'removal' if side == OLD else 'insertion'} mark")
+    # pending runs are fed from the right side: whatever is appended to the removed run is a from-side object, whatever
+    # is appended to the inserted run is a to-side / inserted object
+    def fed_from(seq):
+        out = []
+        for c in walk_no_nested(pe.node):
+            if isinstance(c, ast.Call) and isinstance(c.func, ast.Attribute) and c.func.attr == "append" \
+                    and dotted(c.func.value) == seq and c.args and isinstance(c.args[0], ast.Name):
+                v = c.args[0].id
+                for s_ in walk_no_nested(pe.node):
+                    if isinstance(s_, ast.Assign) and isinstance(s_.targets[0], ast.Name) and s_.targets[0].id == v \
+                            and not (isinstance(s_.value, ast.Constant) and s_.value.value is None):
+                        out.append((s_, ast.unparse(s_.value)))
+        return out
+    if rem_seq and add_seq:
+        for seq, ok_suffix, what in ((rem_seq, (".from_node.object",), "removed"), (add_seq, (".to_insert.object", ".to_node.object"), "inserted")):
+            feeds = fed_from(seq)
+            bad = [x for x in feeds if not x[1].endswith(ok_suffix)]
+            if feeds and not bad:
+                ctx.proved("E10", F, W, feeds[0][0], f"{what} run fed from the right side",
+                           f"the pending {what} run only receives {' / '.join(ok_suffix)} values")
             else:
-                ctx.violation("E10", pe.file, "StringFormatter.print_StringEdit", c, f"{want_src} in {sorted(pol)} @{c.lineno - pe.node.lineno}",
-                              f"characters from `{src}` are written with {'removed' if side == OLD else 'inserted'}=True inside "
-                              f"{sorted(pol) or 'no'} mark; expected {want_src} inside a {'removal' if side == OLD else 'insertion'} mark")
-    # pending runs classified correctly: remove_seq receives from-side chars, add_seq to-side chars
-    t = ast.unparse(pe.node).replace(" ", "")
-    for frag, what in (("to_remove=sub_edit.from_node.object", "removed characters come from the from-side"),
-                       ("to_add=sub_edit.to_insert.object", "inserted characters come from the inserted node"),
-                       ("to_add=sub_edit.to_node.object", "replacement characters come from the to-side"),
-                       ("remove_seq.append(to_remove)", "removed characters are queued in remove_seq"),
-                       ("add_seq.append(to_add)", "inserted characters are queued in add_seq")):
-        if frag in t:
-            ctx.proved("E10", pe.file, "StringFormatter.print_StringEdit", pe.node, frag, what, nontrivial=False)
-        else:
-            ctx.violation("E10", pe.file, "StringFormatter.print_StringEdit", pe.node, frag, f"print_StringEdit no longer has `{frag}` ({what})")
-    # flush before the closing quote: after the loop, both sequences are drained, then write_end_quote
-    body = pe.node.body
+                node = (bad or [(pe.node, "")])[0][0]
+                ctx.violation("E10", F, W, node, f"{what} run fed from the right side",
+                              f"the pending {what} run receives `{bad[0][1] if bad else 'nothing'}`; it must only receive "
+                              f"{' / '.join(ok_suffix)} values, otherwise characters of the other document are marked as {what}")
+    # flush before the closing quote: after the edit loop, both runs are drained, then write_end_quote
     wq = [c for c in walk_no_nested(pe.node) if isinstance(c, ast.Call) and self_attr(c.func) == "write_end_quote"]
-    loops = [x for x in walk_no_nested(pe.node) if isinstance(x, ast.For) and dotted(x.iter) == "edits"]
-    if wq and loops:
-        after = [c for c in walk_no_nested(pe.node) if isinstance(c, ast.For) and c.lineno > loops[0].end_lineno and c.lineno < wq[0].lineno]
-        srcs = set()
-        for a in after:
-            it = a.iter.args[0] if isinstance(a.iter, ast.Call) and call_name(a.iter) == "enumerate" else a.iter
-            srcs.add(dotted(it))
-        if {"remove_seq", "add_seq"} <= srcs:
-            ctx.proved("E10", pe.file, "StringFormatter.print_StringEdit", wq[0], "pending runs flushed",
-                       "both pending runs are written after the loop and before the closing quote")
+    main_loop = None
+    for x in walk_no_nested(pe.node):
+        if isinstance(x, ast.For) and any(isinstance(c, ast.Call) and call_name(c) == "isinstance" for c in ast.walk(x)):
+            if main_loop is None or x.lineno < main_loop.lineno:
+                main_loop = x
+    if wq and main_loop is not None and rem_seq and add_seq:
+        after = {src for c, side, pol, src in marked if c.lineno > main_loop.end_lineno and c.lineno < wq[0].lineno}
+        if {rem_seq, add_seq} <= after:
+            ctx.proved("E10", F, W, wq[0], "pending runs flushed", "both pending runs are written after the loop and before the closing quote")
         else:
-            ctx.violation("E10", pe.file, "StringFormatter.print_StringEdit", wq[0], "pending runs flushed",
-                          f"only {sorted(x for x in srcs if x)} are flushed between the edit loop and the closing quote: trailing "
+            ctx.violation("E10", F, W, wq[0], "pending runs flushed",
+                          f"only {sorted(x for x in after if x)} are flushed between the edit loop and the closing quote: trailing "
                           f"removed or inserted characters are dropped from the rendering")
     # delimiters in sequences
     qs = m.need_class("SequenceFormatter")
     ps = m.method(qs, "print_SequenceNode")
-    for c in walk_no_nested(ps.node):
-        if isinstance(c, ast.Call) and self_attr(c.func) == "delimiter_callback":
-            pol = enclosing_polarity(c)
-            facts = [ast.unparse(t) for t, p in flatten_conditions(dominating_conditions(c)) if p]
-            nfacts = [ast.unparse(t) for t, p in flatten_conditions(dominating_conditions(c)) if not p]
-            if pol == {OLD} and "to_remove" in facts:
-                n_ctx += 1
-                ctx.proved("E10", ps.file, "SequenceFormatter.print_SequenceNode", c, "removed delimiter", "a delimiter is struck only while a removal is pending")
-            elif pol == {NEW} and "to_insert" in facts and "to_remove" in nfacts:
-                n_ctx += 1
-                ctx.proved("E10", ps.file, "SequenceFormatter.print_SequenceNode", c, "inserted delimiter", "a delimiter is marked inserted only while an insertion (and no removal) is pending")
-            elif not pol and "to_remove" in nfacts and "to_insert" in nfacts:
-                ctx.proved("E10", ps.file, "SequenceFormatter.print_SequenceNode", c, "plain delimiter", "otherwise the delimiter is plain", nontrivial=False)
-            else:
-                ctx.violation("E10", ps.file, "SequenceFormatter.print_SequenceNode", c, f"delimiter in {sorted(pol)}",
-                              f"delimiter written inside {sorted(pol) or 'no'} mark under {facts} / not {nfacts}: removal counter must "
-                              f"pair with strike and insertion counter with under-plus")
-    t = ast.unparse(ps.node).replace(" ", "")
-    if "ifisinstance(edit,Remove):\nto_remove+=1\nelifisinstance(edit,Insert):\nto_insert+=1" in t.replace("    ", ""):
-        ctx.proved("E10", ps.file, "SequenceFormatter.print_SequenceNode", ps.node, "counters", "Remove feeds the removal counter, Insert the insertion counter")
-    else:
+    _c0, cb = pat.first("if isinstance(E, Remove):\n    U += 1\nelif isinstance(E, Insert):\n    V += 1", ps.node)
+    if cb is None:
         ctx.violation("E10", ps.file, "SequenceFormatter.print_SequenceNode", ps.node, "counters",
                       "the removal/insertion counters are no longer fed by Remove/Insert edits respectively")
+    else:
+        U, V = cb["U"], cb["V"]
+        ctx.proved("E10", ps.file, "SequenceFormatter.print_SequenceNode", _c0, "counters", "Remove feeds the removal counter, Insert the insertion counter")
+        for c in walk_no_nested(ps.node):
+            if isinstance(c, ast.Call) and self_attr(c.func) == "delimiter_callback":
+                pol = enclosing_polarity(c)
+                facts = [ast.unparse(t) for t, p_ in flatten_conditions(dominating_conditions(c)) if p_]
+                nfacts = [ast.unparse(t) for t, p_ in flatten_conditions(dominating_conditions(c)) if not p_]
+                if pol == {OLD} and U in facts:
+                    n_ctx += 1
+                    ctx.proved("E10", ps.file, "SequenceFormatter.print_SequenceNode", c, "removed delimiter", "a delimiter is struck only while a removal is pending")
+                elif pol == {NEW} and V in facts and U in nfacts:
+                    n_ctx += 1
+                    ctx.proved("E10", ps.file, "SequenceFormatter.print_SequenceNode", c, "inserted delimiter", "a delimiter is marked inserted only while an insertion (and no removal) is pending")
+                elif not pol and U in nfacts and V in nfacts:
+                    ctx.proved("E10", ps.file, "SequenceFormatter.print_SequenceNode", c, "plain delimiter", "otherwise the delimiter is plain", nontrivial=False)
+                else:
+                    ctx.violation("E10", ps.file, "SequenceFormatter.print_SequenceNode", c, f"delimiter in {sorted(pol)}",
+                                  f"delimiter written inside {sorted(pol) or 'no'} mark under {facts} / not {nfacts}: the removal counter "
+                                  f"must pair with strike and the insertion counter with under-plus")
     ctx.floor("E10", n_ctx, 12, "marked print sites")
 
 
